@@ -1449,11 +1449,46 @@ impl<'de, 'e> de::Deserializer<'de> for YamlDeserializer<'de, 'e> {
                 value,
                 ..
             }) => {
-                // Check for null - not valid for string deserialization
-                if tag == &SfTag::Null || scalar_is_nullish(value, style) {
+                // The same rules as for an owned `String` (see `deserialize_string`): a borrowed
+                // target differs only in how the text is handed over, not in what is a string.
+                // Null is not valid for string deserialization, unless tagged `!!str`.
+                if (tag == &SfTag::Null || scalar_is_nullish(value, style)) && tag != &SfTag::String
+                {
                     let loc = *location;
                     let _ = self.ev.next()?;
                     return Err(Error::NullIntoString { location: loc });
+                } else if self.cfg.no_schema
+                    && maybe_not_string(value, style)
+                    && tag != &SfTag::String
+                {
+                    let (value, _tag, location) = self.take_scalar_event()?;
+                    return Err(Error::quoting_required(&value).with_location(location));
+                }
+                if *tag == SfTag::Binary && !self.cfg.ignore_binary_tag_for_string {
+                    // `!!binary` is decoded: the text is not in the input verbatim, only an
+                    // owning target (`String`, `Cow`) can take it.
+                    let location = *location;
+                    let reason = if self.ev.input_for_borrowing().is_none() {
+                        TransformReason::InputNotBorrowable
+                    } else {
+                        TransformReason::ParserReturnedOwned
+                    };
+                    let decoded = self.take_string_scalar()?;
+                    return visitor.visit_string(decoded).map_err(|err: Error| {
+                        if err.to_string().contains("expected a borrowed string") {
+                            Error::cannot_borrow_transformed(reason).with_location(location)
+                        } else {
+                            err
+                        }
+                    });
+                }
+                if !tag.can_parse_into_string()
+                    && *tag != SfTag::NonSpecific
+                    && !(self.cfg.ignore_binary_tag_for_string && *tag == SfTag::Binary)
+                {
+                    return Err(Error::TaggedScalarCannotDeserializeIntoString {
+                        location: *location,
+                    });
                 }
                 *location
             }
